@@ -601,6 +601,15 @@ func TestVerifC09(t *testing.T) {
 			if err := c09CopyDir(data, dst); err != nil {
 				t.Fatalf("copy: %v", err)
 			}
+			// The image is only meaningful if the child did not move while it was taken. The stop detection has been
+			// seen to err on an overloaded machine (a starved thread looks stopped): the begin/ack counters are read
+			// again after the copy, and an image during which they moved is thrown away.
+			if int(binary.LittleEndian.Uint64(shared[8:])) != meta.Begun || int(binary.LittleEndian.Uint64(shared[16:])) != meta.Acked {
+				os.RemoveAll(dst)
+				r.Count("images-discarded:child-moved-during-copy", 1)
+				lastKey = ""
+				return
+			}
 			b, _ := json.Marshal(meta)
 			ioutil.WriteFile(dst+".json", b, 0o644)
 			nimg++
@@ -1148,5 +1157,23 @@ func TestVerifC09Verify(t *testing.T) {
 		b, _ := json.Marshal(v)
 		vf.Write(append(b, '\n'))
 		os.RemoveAll(dir)
+	}
+}
+
+// TestVerifC09Print prints the history generated for VERIF_C09_SEED (debugging aid for replay files).
+func TestVerifC09Print(t *testing.T) {
+	if os.Getenv("VERIF_C09_PRINT") == "" {
+		t.Skip("not asked to print")
+	}
+	seed, _ := strconv.ParseUint(os.Getenv("VERIF_C09_SEED"), 10, 64)
+	ops, maxOpN := c09GenHistory(vk.NewRand(seed), 26)
+	fmt.Printf("maxOpN=%d\n", maxOpN)
+	for i, op := range ops {
+		b, _ := json.Marshal(op)
+		s := string(b)
+		if len(s) > 300 {
+			s = s[:300] + "..."
+		}
+		fmt.Printf("%2d %s\n", i, s)
 	}
 }
